@@ -3,8 +3,9 @@
 PID = "C19"
 CLAIM = True
 MANIFEST_TEXT = (
-    "Lean 4 theorems about an executable model of mpiguard.hh, of the four future classes (MPIFuture<T>, "
-    "MPIFuture<void>, PseudoFuture<T>, PseudoFuture<void>) and of the type-erasing Dune::Future<T>. Guard: each "
+    "Lean 4 theorems about an executable model of mpiguard.hh, of the future classes (MPIFuture<T>, "
+    "MPIFuture<void>, the two-buffer MPIFuture<R,S> with its send object, PseudoFuture<T>, PseudoFuture<void>), of their "
+    "move construction / move assignment and of the type-erasing Dune::Future<T>. Guard: each "
     "rank's code is a program that may issue the collective sum; finalize/reactivate/destructor are transcribed "
     "statement by statement; ranks of a communicator run in lock step (a rank that returned while another waits in a "
     "collective = deadlock). Proved for ALL rank sets, all failure subsets, both failure modes (exception/scope exit -> "
@@ -23,17 +24,31 @@ MANIFEST_TEXT = (
     "(ready_after_complete, ready_stays_true, ready_false_while_pending), the void classes are the payload-erased "
     "projection of the T classes (void_future_same_protocol), Dune::Future<T> answers like the future it holds and a "
     "null (default-constructed / moved-from) Dune::Future reports misuse (erased_future_transparent, "
-    "null_future_reports_misuse). Tie to the source on every run: the real classes are driven under mpirun (P=1..4, "
+    "null_future_reports_misuse). Round three: the move operations are transcribed swap by swap instead of being taken "
+    "for the identity: after t = std::move(s) the target is exactly s - request, receive buffer and send object - for "
+    "EVERY previous state of t, and the destroyed temporary is exactly the old t (move_assign_transfers, "
+    "move_construct_transfers), hence a future variable re-used for a new operation answers every call history like "
+    "the fresh future of that operation: never data, result or send object of the previous one (reused_future_no_stale); "
+    "the two-buffer future answers valid/ready/wait/get exactly like MPIFuture<R> and keeps its send object through "
+    "every history (two_buffer_same_protocol); get_send_data() hands back exactly the send object of the operation, "
+    "acts as a wait() on everything else (the object is released only after completion) and throws on a future whose "
+    "result was taken (send_data_once); a second get_send_data() on a still valid future is undefined in the code and "
+    "excluded (send_data_twice_undefined). Tie to the source on every run: the real classes are driven under mpirun (P=1..4, "
     "thorough up to 8) through every guard constructor (default, MPIHelper, MPI_Comm, Communication<MPI_Comm> on split "
     "communicators, sequential Communication<No_Comm>), all 3^P failure patterns for P<=3 embedded in multi-section "
     "cases, every path of a rank through a section (guard object before x way of arming x act x act of a second rank) "
     "plus random cases, and every non-blocking operation (ibarrier, ibroadcast, igather, iscatter, iallgather, "
     "iallreduce two-argument and in-place, isend/irecv, default-constructed) x payload types (void, int, vector, bool, "
-    "lvalue buffers int&/vector<int>&) x wrapper (the future itself, move-assigned, Dune::Future<R>, Dune::Future<void>, "
-    "moved-from Dune::Future, default Dune::Future) x all call sequences of valid/ready/wait/get up to length 4 plus "
+    "lvalue buffers int&/vector<int>&) x wrapper (the future itself, move-assigned into a default-constructed object, "
+    "move-assigned into a variable that served a previous operation of the same kind with other values - result taken / "
+    "only waited for / send object and result taken -, Dune::Future<R>, a re-used Dune::Future<R> variable, "
+    "Dune::Future<void>, moved-from Dune::Future, default Dune::Future) x all call sequences of valid/ready/wait/get "
+    "(and get_send_data, at most once, for the two-buffer operations) up to length 4 plus "
     "random per-rank sequences with environment-completion and polling steps; the Lean model must print the same "
     "per-rank observations, and an oracle evaluating the property statement directly (shadow flags, expected collective "
-    "results, collective counts observed through PMPI) judges every case."
+    "results, the send object handed back, collective counts observed through PMPI) judges every case; an ownership "
+    "oracle records the send/receive buffers of every posted operation in the interposed MPI_I* calls and requires them "
+    "to be live memory (ASan shadow) once the future has reached the object the calls are made on."
 )
 MANIFEST_NOTE = (
     "Partial w.r.t. the runtime: MPI itself is trusted (a collective completes once every member entered it and "
@@ -43,7 +58,10 @@ MANIFEST_NOTE = (
     "(a legal MPI outcome). Payload of the sequential iallgather and of igather on non-root ranks is not judged "
     "(belongs to C07). Not covered (outside the property): the state of a moved-from MPIFuture/PseudoFuture object "
     "(the documentation calls it invalid, the code leaves MPIFuture<void>, MPIFuture<T&> and PseudoFuture valid), "
-    "get_send_data(), destruction of a future with an active request (MPI_Cancel). Model describes the tree with "
+    "a second get_send_data() on a valid future (dereferences the emptied buffer), assignment to a variable whose "
+    "previous operation is still in flight and destruction of a future with an active request (MPI_Cancel). Buffer "
+    "identity is not modelled in Lean (the model moves values); that the future owns the very objects MPI uses is "
+    "checked dynamically by the ownership oracle, which needs the ASan build check.py always uses. Model describes the tree with "
     "fixes/C19_mpifuture_void_get.patch, fixes/C19_future_null_invalid.patch and fixes/C19_mpifuture_bool_payload.patch "
     "applied."
 )
@@ -61,17 +79,20 @@ RULE = ("cases: (a) guard: constructor x colour split x 1..6 sections, per rank 
         "reactivate} and act in {finalize(true), finalize(), finalize(false), reactivate, throw, leave scope}, end of the "
         "case matched per communicator; for P<=3 every pattern over {ok, finalize(false), throw}^P occurs as a section "
         "for every constructor; every (guard object before, arm, act, act of rank 1) path of rank 0; (b) futures: "
-        "operation x payload type x wrapper x root x values, per step one call per rank; all sequences over "
-        "{valid,ready,wait,get} up to the tier's length for every operation (wrappers rotating), then random sequences "
+        "operation x payload type x wrapper (raw, assigned, reused, reusedw, reusedd, erased, erasedreused, voidcast, "
+        "movedfrom, null) x root x values, per step one call per rank; all sequences over "
+        "{valid,ready,wait,get} (+ get_send_data at most once for igather/iscatter/iallgather/two-argument iallreduce on "
+        "the MPI communicator) up to the tier's length for every operation (wrappers rotating), then random sequences "
         "with complete/spin/idle steps differing between ranks; distinct = distinct op lines; non-trivial = at least one "
         "rank made a judged call (idle-only ranks and steps consisting of '-'/'c' only are trivial)")
 ASSUMPTIONS = [
     "MPI is trusted: collectives on one communicator match in order and deliver the sum to every member; a request completes iff its operation completed; MPI_Wait returns then; MPI_Test may answer 'not complete' for an active request",
     "the Lean model lean/DuneVerif/Model/C19.lean is hand-written; its fidelity to mpiguard.hh, mpifuture.hh, future.hh rests on this differential run",
     "theorems sections_agree/agreement/no_failure_no_error assume a matched end of the case (no member or every member of a communicator ends with a successful reactivate()); guard_deadlock_iff proves that exactly the other cases deadlock (a rank that re-armed owes another section); the harness and the driver reject those lines",
+    "a re-used future variable is assigned to only after its previous operation has been waited for or taken (the harness never assigns over a request in flight: ~MPIFuture would MPI_Cancel it); the previous operation has the same kind and other values in every entry",
     "the collective results the futures deliver (sum/min/max, gather, scatter, broadcast, send/recv) are computed from the contributions at specification level; their MPI implementation is C07's subject",
 ]
-TRUSTED = ["mpicxx/g++/libstdc++, ASan/UBSan, Open MPI 4.1 (incl. its profiling interface)",
+TRUSTED = ["mpicxx/g++/libstdc++, ASan/UBSan (incl. __asan_region_is_poisoned for the ownership oracle), Open MPI 4.1 (incl. its profiling interface)",
            "harness/mpi_c19.cc (PMPI interposers, oracles) + Driver/C19.lean parsing/printing"]
 
 
